@@ -158,7 +158,40 @@ func latchDiscipline(c *Ctx, rule string, scope []*ssa.Function, latches map[*ty
 	for _, f := range scope {
 		inScope[f] = true
 	}
+	hasErrResult := func(f *ssa.Function) bool {
+		r := f.Signature.Results()
+		return r.Len() > 0 && isErrorType(r.At(r.Len()-1).Type())
+	}
+	// a function without error result that calls a latch writer (without error result) hands the obligation on to ITS
+	// callers: it is itself a (transitive) latch writer. The latch must be looked at by the first function up the call
+	// chain that can report an error.
+	for changed := true; changed; {
+		changed = false
+		for _, fn := range scope {
+			if hasErrResult(fn) {
+				continue
+			}
+			for _, call := range calls(fn) {
+				callee := call.Common().StaticCallee()
+				if callee == nil || writers[callee] == nil || hasErrResult(callee) {
+					continue
+				}
+				for fv := range writers[callee] {
+					if writers[fn] == nil {
+						writers[fn] = map[*types.Var]bool{}
+					}
+					if !writers[fn][fv] {
+						writers[fn][fv] = true
+						changed = true
+					}
+				}
+			}
+		}
+	}
 	for _, fn := range scope {
+		if !hasErrResult(fn) {
+			continue // transitive writer: its callers are checked
+		}
 		for _, call := range calls(fn) {
 			callee := call.Common().StaticCallee()
 			if callee == nil || writers[callee] == nil {
@@ -327,7 +360,7 @@ func checkC10(c *Ctx) {
 	c.Explain = "C10 decided by an all-paths error-flow analysis (E-err): every fallible call reachable from (*SMF).WriteTo / smf.ReadFrom either propagates its error, or is tested and every return reachable from the edge on which the error is known non-nil carries a definitely non-nil error, or is latched into an error field that every caller tests; discards are allowed only into in-memory destinations. By induction up the call graph a failing Write/Read makes the entry point return non-nil. Size accounting: the user's io.Writer flows only into the counting wrapper."
 	c.Trusted = []string{"io.Writer / io.Reader contracts", "bytes.Buffer never fails", "fmt.Errorf / errors.New return non-nil", "go/ssa + VTA call graph"}
 	c.Rule("C10.1", "write path: no fallible call reachable from (*SMF).WriteTo drops or swallows its error (discard only into in-memory destinations; every return reachable from a non-nil edge is definitely non-nil; latches are tested)", 8)
-	c.Rule("C10.2", "size accounting: the destination io.Writer flows only into the counting wrapper, whose Write adds the accepted count; WriteTo returns a load of that counter; a nil error is returned only after the normal exit of the track loop", 3)
+	c.Rule("C10.2", "size accounting: in the whole-file simulation of WriteTo every outcome that returns nil reports as size exactly the number of bytes the destination accepted (nil only if every Write was accepted: C10.5)", 1)
 	c.Rule("C10.3", "read path: same two sub-rules for everything reachable from smf.ReadFrom; conversions of a non-nil error to success are confined to {io.EOF, ErrFinished} in ReadFrom", 10)
 	c.Rule("C10.4", "WriteFile: abstract run with creation, WriteTo and closing each succeeding or failing — a failed WriteTo always ends in a non-nil error with the partial file removed; a nil result only after a successful WriteTo, and then the file is not removed", 1)
 	c.Rule("C10.6", "whole-file read simulation with a source that may fail at EVERY Read (sticky non-EOF error, nothing delivered): every outcome in which some Read failed returns a definite error — never a silently shortened file; the outcomes without failure return nil", 1)
@@ -349,7 +382,7 @@ func checkC10(c *Ctx) {
 	c.Extra["write_path_fallible_sites"] = n
 
 	// ---- C10.2 size accounting
-	checkSizeAccounting(c, "C10.2", writeTo, wscope)
+	runWriteToSim(c, "", "", "", "C10.2", "")
 
 	// ---- read path
 	rscope := minus(p.Reachable(readFrom), loggers)
